@@ -43,7 +43,15 @@ def concat_parts(parts):
         # what the user sees from compute(): dask's own concatenation drops empty partitions (whose dtypes and
         # index names are stand-ins, not data) unless every partition is empty
         nonempty = [p for p in parts if len(p)]
-        return pd.concat(nonempty if nonempty else parts[:1])
+        sel = nonempty if nonempty else parts[:1]
+        if len(sel) == 1:
+            return sel[0]
+        try:
+            from dask.dataframe.dispatch import concat as dd_concat
+
+            return dd_concat(sel)  # what compute() uses: unions the categories of categorical columns
+        except Exception:
+            return pd.concat(sel)
     return parts
 
 
